@@ -814,6 +814,17 @@ impl<'a> VisitMut for Rewriter<'a> {
                 }
                 other => other,
             };
+            // R36: `_ = E;` (an assignment to the wildcard: evaluate and drop) is `let _ = E;` (Verus rejects destructuring assignment)
+            let st = match st {
+                syn::Stmt::Expr(syn::Expr::Assign(a), Some(semi)) if matches!(&*a.left, syn::Expr::Infer(_)) && a.attrs.is_empty() => {
+                    let rhs = (*a.right).clone();
+                    self.rules.insert("R36".into());
+                    let _ = semi;
+                    let l: syn::Stmt = syn::parse_quote!(let _ = #rhs;);
+                    l
+                }
+                other => other,
+            };
             // R2 on statement-level logging macros
             if let syn::Stmt::Macro(m) = &st {
                 let last = m.mac.path.segments.last().map(|s| s.ident.to_string()).unwrap_or_default();
